@@ -16,6 +16,7 @@ import z3
 
 T_Z3 = int(os.environ.get("PYVC_T_Z3_MS", "8000"))
 T_EXT = int(os.environ.get("PYVC_T_EXT_S", "20"))
+SCALE = [1.0]       # second-chance pass of the checker: every stage budget multiplied
 
 
 def flatten_and(fs):
@@ -974,19 +975,19 @@ def solve_sub(sub, expect="unsat", thorough=False):
         return dict({"status": status, "backend": backend, "time": total[0], "model": model, "log": log}, **kw)
 
     def z3api(which, label, tmo, want_model=False):
-        r, dt, m = _z3_api(sub[which], tmo, want_model=want_model)
+        r, dt, m = _z3_api(sub[which], int(tmo * SCALE[0]), want_model=want_model)
         total[0] += dt
         log.append((label, r, round(dt, 3)))
         return r, m
 
     def cli(which, label, cmd):
-        ans, dt = _cli(cmd, sub[which], T_EXT)
+        ans, dt = _cli(cmd, sub[which], int(T_EXT * SCALE[0]))
         total[0] += dt
         log.append((label, ans, round(dt, 3)))
         return ans
 
-    CVC5 = ["/usr/bin/cvc5", "--strings-exp", "--tlimit=%d" % (T_EXT * 1000)]
-    Z3OLD = ["/usr/bin/z3", "-T:%d" % T_EXT]
+    CVC5 = ["/usr/bin/cvc5", "--strings-exp", "--tlimit=%d" % int(T_EXT * 1000 * SCALE[0])]
+    Z3OLD = ["/usr/bin/z3", "-T:%d" % int(T_EXT * SCALE[0])]
     if expect == "sat":      # vacuity guard
         r, _ = z3api("full", "z3-5.1", 2000)
         if r == "unknown":
